@@ -284,9 +284,11 @@ fn random_perm(rng: &mut Rng, n: usize) -> Vec<u8> {
 /// Characters a sloppy comparison might strip from a key: common sigils and separators, plus every
 /// char literal found in the sources of the tree under test.
 pub fn affix_chars() -> Vec<char> {
-    let mut v: Vec<char> = "@$_-#.:!~*%&/+=?^|<>'`,;".chars().collect();
+    // every printable ASCII character, a few invisible / non-ASCII ones, and every char literal of the tree
+    let mut v: Vec<char> = (0x20u8..0x7f).map(|b| b as char).collect();
+    v.extend(['\t', '\n', '\u{a0}', '\u{200b}', '\u{feff}', '\u{e9}', '\u{1}']);
     for c in harvested_chars() {
-        if !v.contains(c) && !c.is_alphanumeric() {
+        if !v.contains(c) {
             v.push(*c);
         }
     }
@@ -318,7 +320,44 @@ pub fn near_miss_keys(field: &str) -> Vec<String> {
     v
 }
 
+/// One random edit of a key: insert / delete / replace / duplicate a character, flip case.
+fn mutate_key(rng: &mut Rng, key: &str) -> String {
+    let mut c: Vec<char> = key.chars().collect();
+    let pool = affix_chars();
+    let pick = pool[rng.usize_below(pool.len())];
+    match rng.below(6) {
+        0 => c.insert(rng.usize_below(c.len() + 1), pick),
+        1 if !c.is_empty() => {
+            c.remove(rng.usize_below(c.len()));
+        }
+        2 if !c.is_empty() => {
+            let i = rng.usize_below(c.len());
+            c[i] = pick;
+        }
+        3 if !c.is_empty() => {
+            let i = rng.usize_below(c.len());
+            let d = c[i];
+            c.insert(i, d);
+        }
+        4 if !c.is_empty() => {
+            let i = rng.usize_below(c.len());
+            c[i] = if c[i].is_uppercase() { c[i].to_ascii_lowercase() } else { c[i].to_ascii_uppercase() };
+        }
+        _ => c.push(pick),
+    }
+    c.into_iter().collect()
+}
+
 fn pick_unknown_key(rng: &mut Rng, keys: &[String]) -> String {
+    if !keys.is_empty() && rng.chance(1, 4) {
+        let mut k = keys[rng.usize_below(keys.len())].clone();
+        for _ in 0..1 + rng.usize_below(2) {
+            k = mutate_key(rng, &k);
+        }
+        if !keys.iter().any(|x| *x == k) {
+            return k;
+        }
+    }
     let dict = harvested();
     if !dict.is_empty() && rng.chance(1, 6) {
         let k = &dict[rng.usize_below(dict.len())];
@@ -555,9 +594,20 @@ pub fn sweep_plans(reg: &[TypeEntry]) -> Vec<Plan> {
                             q.in_place = pos == 1;
                             out.push(q);
                         }
-                        // near misses of each real field name, carrying that field's own payload
-                        if framing == Framing::KeyedSelfDelim && (pos == 0 || pos as usize == arr.len()) {
+                        // near misses of each real field name, carrying that field's own payload:
+                        // next to the complete record (two orders), and standing in for that very
+                        // field when it is the one that is missing
+                        let complete = arr.len() == n && (arr[0] == 0 || arr[0] == 1);
+                        let one_missing = arr.len() + 1 == n && arr.windows(2).all(|w| w[0] < w[1]);
+                        if framing == Framing::KeyedSelfDelim
+                            && matches!(key_form, KeyForm::Str | KeyForm::String | KeyForm::Bytes)
+                            && (pos == 0 || pos as usize == arr.len())
+                            && (complete || one_missing)
+                        {
                             for (fi, f) in keys.iter().enumerate() {
+                                if one_missing && arr.contains(&(fi as u8)) {
+                                    continue;
+                                }
                                 for key in near_miss_keys(f) {
                                     if keys.iter().any(|k| *k == key) {
                                         continue;
